@@ -446,8 +446,16 @@ class Component(CaselessDict):
                     comps.append(component)
                 else:
                     stack[-1].add_component(component)
-                if vals.upper() == 'VTIMEZONE' and 'TZID' in component:
-                    tzp.cache_timezone_component(component)
+                if vals.upper() == 'VTIMEZONE' and isinstance(component, Timezone) \
+                        and 'TZID' in component:
+                    try:
+                        tzp.cache_timezone_component(component)
+                    except ValueError:
+                        raise
+                    except Exception as e:
+                        # e.g. observances without DTSTART/TZOFFSETFROM, duplicated
+                        # TZID or DTSTART, impossible recurrence rules
+                        raise ValueError(f'Invalid VTIMEZONE: {e!r}') from e
             # we are adding properties to the current top of the stack
             else:
                 factory = types_factory.for_property(name)
